@@ -114,27 +114,46 @@ def sortKeyValid (S : Schema) (elementType : ElemType) (sortKey : Scalar) : Bool
     | _ => false
   | .int _ => false
 
+/-- `_is_known_type(element_type)` -/
+def elemKnown (S : Schema) (a : ArrayType) : Bool :=
+  match a.elementType with
+  | .named n => isKnownType S n
+  | .int _ => true
+
+/-- `is_sort_key_valid` -/
+def sortKeyOk (S : Schema) (a : ArrayType) : Bool :=
+  if elemKnown S a then (!(a.sortKey.getD .none).truthy || sortKeyValid S a.elementType (a.sortKey.getD .none))
+  else !(a.sortKey.getD .none).truthy
+
+def arrayElemErrors (S : Schema) (tn fn : String) (a : ArrayType) : List ErrorDescriptor :=
+  if elemKnown S a then []
+  else [mkErr tn [fn] .unknownElementType s!"reference to unknown element type \"{a.elementType.render}\""]
+
+def arraySortErrors (S : Schema) (tn fn : String) (a : ArrayType) : List ErrorDescriptor :=
+  if sortKeyOk S a then []
+  else [mkErr tn [fn] .unknownSortKey s!"reference to unknown sort_key property \"{(a.sortKey.getD .none).pyStr}\""]
+
+def arraySizeErrors (M : Struct) (fn : String) (a : ArrayType) : List ErrorDescriptor :=
+  match a.size with
+  | .str s => if (fieldMapGet M s).isSome then []
+    else [mkErr M.name [fn] .unknownSizeProperty s!"reference to unknown size property \"{s}\""]
+  | _ => []
+
 /-- `_validate_array` -/
 def arrayErrors (S : Schema) (M : Struct) (f : StructField) : List ErrorDescriptor :=
   match f.fieldType with
-  | .array a =>
-    let sortKey : Scalar := a.sortKey.getD .none
-    let elemKnown := match a.elementType with | .named n => isKnownType S n | .int _ => true
-    let e1 := if elemKnown then []
-      else [mkErr M.name [f.name] .unknownElementType s!"reference to unknown element type \"{a.elementType.render}\""]
-    let sortOk := if elemKnown then (!sortKey.truthy || sortKeyValid S a.elementType sortKey) else !sortKey.truthy
-    let e2 := if sortOk then []
-      else [mkErr M.name [f.name] .unknownSortKey s!"reference to unknown sort_key property \"{sortKey.pyStr}\""]
-    let e3 := match a.size with
-      | .str s => if (fieldMapGet M s).isSome then []
-        else [mkErr M.name [f.name] .unknownSizeProperty s!"reference to unknown size property \"{s}\""]
-      | _ => []
-    e1 ++ e2 ++ e3
+  | .array a => arrayElemErrors S M.name f.name a ++ arraySortErrors S M.name f.name a ++ arraySizeErrors M f.name a
   | _ => []
+
+/-- `field_map[field.value]` for the value of a `sizeof` member -/
+def sizeofTarget (M : Struct) (value : Scalar) : Option StructField :=
+  match value with
+  | .str v => fieldMapGet M v
+  | _ => none
 
 /-- `_validate_sizeof` -/
 def sizeofErrors (S : Schema) (M : Struct) (f : StructField) (value : Scalar) : List ErrorDescriptor :=
-  match (match value with | .str v => fieldMapGet M v | _ => none) with
+  match sizeofTarget M value with
   | none => [mkErr M.name [f.name] .unknownSizeofProperty s!"reference to unknown sizeof property \"{value.pyStr}\""]
   | some target =>
     let fixed := [mkErr M.name [f.name] .sizeofFixedSize s!"sizeof property references fixed size type \"{target.fieldType.render}\""]
